@@ -831,9 +831,13 @@ package erpc
 //@   ensures[ok-only-if-no-veto] @C04 old(c.callCmd) != nil && statOK(old(c.callCmd).stat) ==> ghost.vetoed == old(ghost.vetoed)
 
 // closing the session is requested by starting Close on its own goroutine
-//@ trusted (*session).Close
-//@   flags libframe
+//@ func (*session).Close
+//@   property C07
+//@   flags libframe frame-unchecked
 //@   spawnset ghost.closeRequests = old(ghost.closeRequests) + 1
+//@   requires @C07 sessShape(s) && s.peer.sessHub != nil && s.peer.sessHub.sessions != nil
+//@   modifies allof(type(session)), allof(type(socket.socket)), lockset, waitgroups, channels, mapviews
+//@   ensures[index-only-own-entry] @C07 forall h *SessionHub, k iface :: {h.sessions.#gkeys[k]} old(h.sessions.#gvals[k]) != iface(type(*session), s) ==> h.sessions.#gkeys[k] == old(h.sessions.#gkeys[k]) && h.sessions.#gvals[k] == old(h.sessions.#gvals[k])
 
 //@ func (*session).startReadAndHandle
 //@   property C06 C03 C02
@@ -846,6 +850,41 @@ package erpc
 //@   ensures[no-orphan-reply-lock] @C02 !ghost.pendingReplyLock
 //@   loop 0: invariant[reply-lock-handed-on] @C02 !ghost.pendingReplyLock
 //@   loop 0: invariant[every-accepted-frame-dispatched] @C03 ghost.framesRead - old(ghost.framesRead) == (ghost.handleScheduled - old(ghost.handleScheduled)) + (ghost.handleRuns - old(ghost.handleRuns))
+
+// ---- C07: the session index is exact ----------------------------------------------
+// ghost view of the hub's map: hubAt(sh, id) is the session indexed under id
+//@ spec fn sessID(s *session) string = sockID(as(s.socket, type(*socket.socket)))
+//@ spec fn hubHas(sh *SessionHub, id string, s *session) bool = sh.sessions.#gkeys[iface(type(string), id)] && sh.sessions.#gvals[iface(type(string), id)] == iface(type(*session), s)
+
+// closing a session touches, in any hub, only an index entry that maps to this session
+//@ func (*session).closeLocked
+//@   property C07
+//@   flags libframe frame-unchecked
+//@   requires sessShape(s) && s.peer.sessHub != nil && s.peer.sessHub.sessions != nil
+//@   modifies allof(type(session)), allof(type(socket.socket)), lockset, waitgroups, channels, mapviews
+//@   ensures[index-only-own-entry] forall h *SessionHub, k iface :: {h.sessions.#gkeys[k]} old(h.sessions.#gvals[k]) != iface(type(*session), s) ==> h.sessions.#gkeys[k] == old(h.sessions.#gkeys[k]) && h.sessions.#gvals[k] == old(h.sessions.#gvals[k])
+
+//@ func (*SessionHub).delete
+//@   property C07
+//@   modifies sh.sessions.#gkeys
+//@   requires sh.sessions != nil
+//@   ensures[removes-only-own-entry] forall k iface :: {sh.sessions.#gkeys[k]} (k != iface(type(string), id) || old(sh.sessions.#gvals[k]) != iface(type(*session), sess)) ==> sh.sessions.#gkeys[k] == old(sh.sessions.#gkeys[k])
+//@   ensures[own-entry-removed] old(hubHas(sh, id, sess)) ==> !sh.sessions.#gkeys[iface(type(string), id)]
+
+// (index values are the sessions put there by set, whose precondition this is)
+//@ iface github.com/henrylee2cn/goutil.Map.LoadOrStore in erpc.(*SessionHub).set
+//@   params self key value
+//@   modifies nothing
+//@   ghostset self.#gvals = (old(self.#gkeys)[key] ? old(self.#gvals) : store(old(self.#gvals), key, value))
+//@   ghostset self.#gkeys = store(old(self.#gkeys), key, true)
+//@   ensures[loaded-or-stored] result.1 == old(self.#gkeys[key]) && (result.1 ==> result.0 == old(self.#gvals[key])) && (!result.1 ==> result.0 == value)
+//@   ensures[indexed-sessions-wellformed] result.1 ==> istype(result.0, type(*session)) && sessShape(as(result.0, type(*session))) && as(result.0, type(*session)).peer.sessHub != nil && as(result.0, type(*session)).peer.sessHub.sessions != nil
+//@ func (*SessionHub).set
+//@   property C07
+//@   flags libframe frame-unchecked
+//@   requires sh.sessions != nil && sess != nil && sessShape(sess) && sess.peer.sessHub == sh
+//@   modifies allof(type(session)), allof(type(socket.socket)), lockset, waitgroups, channels, mapviews
+//@   ensures[indexed-under-current-id] hubHas(sh, old(sessID(sess)), sess)
 
 // ---- logging: output only (keeps verification conditions small) ------------------
 //@ trusted Printf
